@@ -145,7 +145,7 @@ def generate(rng, tier):
                     qs = [["width"], ["at", 1], ["slice", 0, cols], ["slice", 1, cols + 1], ["slice", 0, 1]]
                     yield {"runs": [list(r) for r in runs], "queries": qs, "via": ["wrap", cols, k]}
     nrand = 6000 if tier == "thorough" else 300
-    alpha_ok = "ab " + WIDE * 3 + COMB * 2 + "中́x"
+    alpha_ok = "ab " + WIDE * 3 + COMB * 2 + "中́x\u0902\u0e34"      # incl. zero-width marks of combining class 0
     for k in range(nrand):
         if k % 10 == 9:
             alphabet = alpha_ok + "\n\t\x00\x7f"      # malformed stream: wcwidth -1 (and NUL: 0)
